@@ -204,3 +204,78 @@ def parse_inputs(rng, e: ESpec, info, tier, max_full=None):
 def restyled_idents(enums):
     """extra enums? no: ask the model for every style's rendering of each identifier (used as inputs)"""
     return []
+
+
+# ---------------------------------------------------------------------------------------------------
+# "attribute soup": random in-domain mixtures of every EnumString-relevant attribute, including the unusual
+# combinations a hand-written grid tends to miss (disabled + default, serialize / to_string that differ only in
+# case, repeated or empty literals, explicit `ascii_case_insensitive = false` next to case variants, ...)
+
+def soup_literals(rng, stem, k):
+    base = stem + str(k)
+    pool = [base, base.lower(), base.upper(), base.swapcase(), base + 'x', 'é' + base, base.capitalize(), base[::-1] + '_', base + ' ', ' ' + base]
+    return pool
+
+
+def soup_variant(rng, k, stem_i, allow_empty, unit_only=False, display=False):
+    stem = STEMS[stem_i % len(STEMS)]
+    ident = '%s%s' % (stem, chr(65 + k % 26))
+    kind = ('unit', []) if unit_only else rng.choice(KINDS)
+    v = VSpec(ident=ident, kind=kind[0], ftypes=list(kind[1]))
+    if kind[0] == 'named':
+        v.fnames = FIELD_NAMES[:len(kind[1])]
+        v.fdw = [None] * len(kind[1])
+    pool = soup_literals(rng, ident, k)
+    nser = rng.choice([0, 0, 1, 1, 2, 3])
+    v.ser = [rng.choice(pool) for _ in range(nser)]
+    if allow_empty and rng.random() < 0.5 and nser:
+        v.ser[rng.randrange(nser)] = ''
+    if rng.random() < 0.4:
+        v.ts = rng.choice(pool)
+    v.ci = rng.choice([None, None, True, False])
+    r = rng.random()
+    if r < 0.15:
+        v.dis = True
+    if kind[0] == 'tuple' and len(kind[1]) == 1 and rng.random() < 0.3:
+        v.dw = 'mk_%s_%s' % (kind[1][0].lower(), ident.lower())
+    if kind[0] == 'named' and rng.random() < 0.3:
+        i = rng.randrange(len(kind[1]))
+        v.fdw[i] = 'mk_%s_%s_%d' % (kind[1][i].lower(), ident.lower(), i)
+    v.attr_layout = rng.choice(['one', 'split'])
+    return v
+
+
+def build_soup(rng, tier, pid, derives=('EnumString',), feats=('parse',), n=None, unit_only=False, phf=False,
+               with_default=True, with_err=True, prefix_pool=(None,)):
+    n = n if n is not None else (40 if tier == 'quick' else 400)
+    enums = []
+    for j in range(n):
+        eid = '%sq%d' % (pid.lower(), j)
+        e = ESpec(id=eid, name='En%sq%d' % (pid, j), style=rng.choice(STYLES), ci=rng.random() < 0.4, derives=list(derives),
+                  feats=list(feats), phf=phf, prefix=rng.choice(list(prefix_pool)))
+        nv = rng.randint(1, 6)
+        empty_used = False
+        for k in range(nv):
+            allow_empty = not empty_used and rng.random() < 0.15
+            v = soup_variant(rng, k, j * 7 + k, allow_empty, unit_only=unit_only)
+            if '' in v.ser:
+                empty_used = True
+            e.variants.append(v)
+        if with_default and rng.random() < 0.45:
+            form = rng.choice(['tuple', 'named'])
+            dv = default_variant(nv, form, with_ts=rng.random() < 0.3)
+            # a default variant may itself be disabled (then it must be ignored entirely), and there may be a
+            # second, disabled one
+            if rng.random() < 0.3:
+                dv.dis = True
+            e.variants.insert(rng.randint(0, len(e.variants)), dv)
+            if rng.random() < 0.25:
+                dv2 = default_variant(nv + 1, rng.choice(['tuple', 'named']), with_ts=False)
+                dv2.ident = 'SecondFallback'
+                dv2.dis = not dv.dis
+                e.variants.insert(rng.randint(0, len(e.variants)), dv2)
+        if with_err and rng.random() < 0.4:
+            e.err = True
+        e.extra['shape'] = 'soup style=%s ci=%s err=%s nv=%d' % (e.style, e.ci, e.err, nv)
+        enums.append(e)
+    return enums
